@@ -315,6 +315,21 @@ Definition default_tmp : bytes := [46; 116; 109; 112; 46; 48].   (* ".tmp.0" *)
 Record rfilter := { f_rej : bytes -> bool; f_map : stat -> stat }.
 Definition no_filter : rfilter := {| f_rej := fun _ => false; f_map := fun s => s |}.
 
+(* the filters of the correspondence run: reject the listed paths and everything below them,
+   add ua / ga to uid / gid of what passes (an id-mapping filter); [exact] = true: reject the
+   listed paths only *)
+Definition below_any (ps : list bytes) (p : bytes) : bool :=
+  existsb (fun q => bytes_eqb q p || has_prefix (q ++ [sep]) p) ps.
+Definition shift_ids (ua ga : N) (s : stat) : stat :=
+  {| st_path := st_path s; st_mode := st_mode s; st_uid := N.land (st_uid s + ua) 4294967295;
+     st_gid := N.land (st_gid s + ga) 4294967295; st_size := st_size s; st_mtime := st_mtime s;
+     st_linkname := st_linkname s; st_devmajor := st_devmajor s; st_devminor := st_devminor s;
+     st_xattrs := st_xattrs s |}.
+Definition subtree_filter (ps : list bytes) (ua ga : N) : rfilter :=
+  {| f_rej := below_any ps; f_map := shift_ids ua ga |}.
+Definition exact_filter (ps : list bytes) (ua ga : N) : rfilter :=
+  {| f_rej := fun p => existsb (bytes_eqb p) ps; f_map := shift_ids ua ga |}.
+
 (* one HandleChange call issued by the diff (one effect), then AsyncDataCb bookkeeping;
    a change the filter rejects is no change (and no effect) *)
 Definition apply_change (fl : rfilter) (c : ctx) (idx : nat) (kind : N) (p : bytes) (s0 : stat) (st : rstate) : rstate :=
